@@ -306,25 +306,39 @@ func guardedInsertSameCell(p *Prog, r *Report, rule string, fn *ssa.Function, fl
 		}
 		return lk.X, lk.Index, true
 	}
+	isInnerMap := func(v ssa.Value) bool {
+		mt, isMap := v.Type().Underlying().(*types.Map)
+		if !isMap {
+			return false
+		}
+		_, valIsMap := mt.Elem().Underlying().(*types.Map)
+		return !valIsMap
+	}
 	n := 0
 	top := fn
 	for _, fn := range withAnon(top) {
 		forEachInstr(fn, func(b *ssa.BasicBlock, _ int, in ssa.Instruction) {
 			mu, ok := in.(*ssa.MapUpdate)
-			if !ok {
-				return
-			}
-			o1, k1, ok := inner(mu.Map)
-			if !ok {
+			if !ok || !isInnerMap(mu.Map) {
 				return
 			}
 			forEachInstr(fn, func(_ *ssa.BasicBlock, _ int, in2 ssa.Instruction) {
 				lk, ok := in2.(*ssa.Lookup)
-				if !ok || !lk.CommaOk || !sameValue(lk.Index, mu.Key) {
+				if !ok || !lk.CommaOk || !sameKeyValue(lk.Index, mu.Key) || !types.Identical(lk.X.Type(), mu.Map.Type()) {
 					return
 				}
-				o2, k2, ok := inner(lk.X)
-				if !ok || !sameValue(o1, o2) {
+				// the two inner maps: one value (a local the inner map was bound to), or two
+				// look-ups in the same outer map — then the outer keys decide
+				same, related := false, false
+				if lk.X == mu.Map {
+					same, related = true, true
+				} else if o1, k1, ok1 := inner(mu.Map); ok1 {
+					if o2, k2, ok2 := inner(lk.X); ok2 && sameValue(o1, o2) {
+						related = true
+						same = sameKeyValue(k1, k2)
+					}
+				}
+				if !related {
 					return
 				}
 				var okv ssa.Value
@@ -341,7 +355,7 @@ func guardedInsertSameCell(p *Prog, r *Report, rule string, fn *ssa.Function, fl
 					return
 				}
 				n++
-				r.Check(sameKeyValue(k1, k2), rule, fmt.Sprintf("%s:guarded-insert#%d", fnKey(top), n), p.Pos(mu.Pos()), "the cell found empty is the cell filled", why)
+				r.Check(same, rule, fmt.Sprintf("%s:guarded-insert#%d", fnKey(top), n), p.Pos(mu.Pos()), "the cell found empty is the cell filled", why)
 			})
 		})
 	}
